@@ -209,6 +209,13 @@ def run(ck: Checker):
     else:
         # every path from an expired wait back to the next wait passes the stop test
         stops = {n.id for n in cfg4.nodes if n.kind == 'test' and any(method_of(c)[1] == 'is_set' for c in calls_in(n.ast))}
+
+        def set_label(nid):
+            t, neg = cfg4.nodes[nid].ast, False
+            while isinstance(t, ast.UnaryOp) and isinstance(t.op, ast.Not):
+                neg, t = not neg, t.operand
+            return 'F' if neg else 'T'
+
         for e in cfg4.succ[wn.id]:
             if e.kind == 'exc':
                 p = path_avoiding(cfg4, [e], {wn.id}, avoid=stops)
@@ -216,7 +223,7 @@ def run(ck: Checker):
                     probs.append('after an expired slice the wait is retried without testing the stop event')
         for sid in stops:
             raises = [k for k in cfg4.nodes if isinstance(k.ast, ast.Raise) and k.ast.exc is not None and 'StopRequested' in norm_text(k.ast.exc)]
-            if not raises or raises[0].id not in reachable(cfg4, [e.dst for e in cfg4.succ[sid] if e.kind == 'T'], avoid={wn.id}):
+            if not raises or raises[0].id not in reachable(cfg4, [e.dst for e in cfg4.succ[sid] if e.kind == set_label(sid)], avoid={wn.id}):
                 probs.append('a set stop event does not raise StopRequested')
         if not stops:
             probs.append('the stop event is never tested')
